@@ -168,7 +168,9 @@ func Bridge(owner sdk.AccAddress, target string, credits ...*basetypes.Credits) 
 	return Msg(lbl+")", &basetypes.MsgBridge{Owner: owner.String(), Target: target, Recipient: "0x71C7656EC7ab88b098defB751B7401B5f6d8976F", Credits: credits})
 }
 
-func Cr(denom, amt string) *basetypes.Credits { return &basetypes.Credits{BatchDenom: denom, Amount: amt} }
+func Cr(denom, amt string) *basetypes.Credits {
+	return &basetypes.Credits{BatchDenom: denom, Amount: amt}
+}
 
 /* ---------- basket ---------- */
 
@@ -290,13 +292,13 @@ func CancelOrder(signer, seller sdk.AccAddress, k int) E {
 
 // BuySpec describes one order of a BuyDirect relative to the pre-state.
 type BuySpec struct {
-	Seller  sdk.AccAddress
-	K       int    // k-th open order of Seller
-	Qty     string // "" => whole remaining quantity; "+eps" => whole + 0.000001
-	BidAdj  int64  // bid amount = ask + BidAdj
-	BidDen  string // "" => ask denom
-	DAR     bool   // disable auto retire
-	MaxFee  *int64 // nil => absent (unless FeeMode is set)
+	Seller sdk.AccAddress
+	K      int    // k-th open order of Seller
+	Qty    string // "" => whole remaining quantity; "+eps" => whole + 0.000001
+	BidAdj int64  // bid amount = ask + BidAdj
+	BidDen string // "" => ask denom
+	DAR    bool   // disable auto retire
+	MaxFee *int64 // nil => absent (unless FeeMode is set)
 	// FeeMode computes the max fee from the pre-state: "floor" = the buyer fee
 	// rounded down, "floor-1", "zero", "large", "other-denom"; "" => use MaxFee.
 	FeeMode string
@@ -422,4 +424,83 @@ func mkBuy(buyer sdk.AccAddress, os ...buyOrder) *explore.Action {
 func mkUpdate(seller sdk.AccAddress, id uint64, qty string, ask sdk.Coin, dar bool) *explore.Action {
 	return Msg(fmt.Sprintf("seed:update(%d,q=%s,ask=%s)", id, qty, shortCoin(ask)), &markettypes.MsgUpdateSellOrders{Seller: seller.String(),
 		Updates: []*markettypes.MsgUpdateSellOrders_Update{{SellOrderId: id, NewQuantity: qty, NewAskPrice: &ask, DisableAutoRetire: dar}}})
+}
+
+// MkBuyMsg is a single-order BuyDirect message with an explicit order id.
+func MkBuyMsg(buyer sdk.AccAddress, id uint64, qty string, bid sdk.Coin, dar bool) sdk.Msg {
+	return mkBuy(buyer, buyOrder{id, qty, bid, dar}).Msg
+}
+
+/* ---------- messages with several items (duplicates inside one message) ---------- */
+
+// SendN sends several credit entries in one message.
+func SendN(from, to sdk.AccAddress, credits ...*basetypes.MsgSend_SendCredits) *explore.Action {
+	lbl := fmt.Sprintf("Send(%s->%s", n(from), n(to))
+	for _, c := range credits {
+		lbl += fmt.Sprintf(",%s:t=%s/r=%s", c.BatchDenom, c.TradableAmount, c.RetiredAmount)
+		if c.RetiredAmount != "" && c.RetiredAmount != "0" {
+			c.RetirementJurisdiction = "US-WA"
+		}
+	}
+	return Msg(lbl+")", &basetypes.MsgSend{Sender: from.String(), Recipient: to.String(), Credits: credits})
+}
+
+func SC(denom, trad, ret string) *basetypes.MsgSend_SendCredits {
+	return &basetypes.MsgSend_SendCredits{BatchDenom: denom, TradableAmount: trad, RetiredAmount: ret}
+}
+
+// RetireN / CancelN with several credit entries.
+func RetireN(owner sdk.AccAddress, credits ...*basetypes.Credits) *explore.Action {
+	lbl := fmt.Sprintf("Retire(%s", n(owner))
+	for _, c := range credits {
+		lbl += "," + c.BatchDenom + ":" + c.Amount
+	}
+	return Msg(lbl+")", &basetypes.MsgRetire{Owner: owner.String(), Jurisdiction: "US-WA", Reason: "r", Credits: credits})
+}
+
+func CancelN(owner sdk.AccAddress, credits ...*basetypes.Credits) *explore.Action {
+	lbl := fmt.Sprintf("Cancel(%s", n(owner))
+	for _, c := range credits {
+		lbl += "," + c.BatchDenom + ":" + c.Amount
+	}
+	return Msg(lbl+")", &basetypes.MsgCancel{Owner: owner.String(), Reason: "r", Credits: credits})
+}
+
+// MintN mints several issuances with a fresh origin tx.
+func MintN(issuer sdk.AccAddress, denom string, iss ...*basetypes.BatchIssuance) E {
+	name := fmt.Sprintf("Mint(%s,%s,%d issuances,tx=fresh)", n(issuer), denom, len(iss))
+	return E{Name: name, Make: func(pre *chain.Snapshot) *explore.Action {
+		return Msg(fmt.Sprintf("%s#%d", name, len(pre.OriginTxs)+1), &basetypes.MsgMintBatchCredits{Issuer: issuer.String(), BatchDenom: denom, Issuance: iss,
+			OriginTx: &basetypes.OriginTx{Id: fmt.Sprintf("verra-%d", len(pre.OriginTxs)+1), Source: "verra"}})
+	}}
+}
+
+// SellN creates several orders in one message.
+func SellN(seller sdk.AccAddress, tag string, orders ...*markettypes.MsgSell_Order) *explore.Action {
+	return Msg(fmt.Sprintf("Sell(%s,%s,%d orders)", n(seller), tag, len(orders)), &markettypes.MsgSell{Seller: seller.String(), Orders: orders})
+}
+
+func SO(denom, qty string, ask sdk.Coin, dar bool, exp *time.Time) *markettypes.MsgSell_Order {
+	return &markettypes.MsgSell_Order{BatchDenom: denom, Quantity: qty, AskPrice: &ask, DisableAutoRetire: dar, Expiration: exp}
+}
+
+// UpdateTwice updates the k-th order of seller twice in ONE message.
+func UpdateTwice(seller sdk.AccAddress, k int, q1, q2 string) E {
+	name := fmt.Sprintf("UpdateSellOrders(%s,order#%d twice,q=%s then %s)", n(seller), k, q1, q2)
+	return E{Name: name, Make: func(pre *chain.Snapshot) *explore.Action {
+		id, ok := OrderSel(pre, seller, k)
+		if !ok {
+			return nil
+		}
+		o := pre.Order(id)
+		amt, _ := sdk.NewIntFromString(o.AskAmount)
+		den := "uregen"
+		if mk := pre.Market(o.MarketId); mk != nil {
+			den = mk.BankDenom
+		}
+		mkU := func(q string) *markettypes.MsgUpdateSellOrders_Update {
+			return &markettypes.MsgUpdateSellOrders_Update{SellOrderId: id, NewQuantity: q, NewAskPrice: &sdk.Coin{Denom: den, Amount: amt}, DisableAutoRetire: o.DisableAutoRetire}
+		}
+		return Msg(fmt.Sprintf("%s[id=%d]", name, id), &markettypes.MsgUpdateSellOrders{Seller: seller.String(), Updates: []*markettypes.MsgUpdateSellOrders_Update{mkU(q1), mkU(q2)}})
+	}}
 }
